@@ -23,6 +23,8 @@ def run(c):
     r4(c)
     r5(c)
     r6(c)
+    r7(c)
+    r8(c)
 
 
 def r1(c):
@@ -364,3 +366,102 @@ def r6(c):
                     f"`{want}`: rows that only {'begin' if kind == 'startswith' else 'end'} with a terminator word (e.g. `end-policy-map` for end-policy) are dropped by split and vanish from the tree",
                     key_text="predicate")
     c.floor("C04.R6", "formatters with terminator filters", n, 2)
+
+
+def pairwise_truncations(fn):
+    """for-loops over zip(X, X[1:]) / zip(X, islice(X, 1, None)) whose body consumes the first component, with no later use of X[-1]: the last element of X is never processed"""
+    out = []
+    for lp in [n for n in ast.walk(fn) if isinstance(n, ast.For)]:
+        it = lp.iter
+        if not (isinstance(it, ast.Call) and call_name(it) == "zip" and len(it.args) == 2):
+            continue
+        a, b = it.args
+        shifted = (isinstance(b, ast.Subscript) and isinstance(b.slice, ast.Slice) and norm(b.value) == norm(a) and b.slice.lower is not None and norm(b.slice.lower) == "1"
+                   and b.slice.upper is None) or \
+                  (isinstance(b, ast.Call) and call_name(b).split(".")[-1] == "islice" and len(b.args) >= 2 and norm(b.args[0]) == norm(a) and norm(b.args[1]) == "1")
+        if not shifted:
+            continue
+        tail = any(isinstance(n, ast.Subscript) and norm(n.value) == norm(a) and norm(n.slice) == "-1" for n in ast.walk(fn))
+        if not tail:
+            out.append(lp)
+    return out
+
+
+def r7(c):
+    import os
+    repo = c.repo
+    c.rule("C04.R7", "a splitter passes every line of the text on: no function of annlib.tabparser walks its lines as zip(lines, lines[1:]) (which never yields the last line as the "
+                     "current one) without handling lines[-1] — a config whose last top-level item is a leaf would lose it on parsing. Expected count 0; a positive fixture proves "
+                     "the matcher alive")
+    fx = os.path.join(os.path.dirname(os.path.dirname(os.path.abspath(__file__))), "fixtures", "c04_pairwise_zip.py")
+    tree = ast.parse(open(fx).read())
+    nfx = sum(len(pairwise_truncations(f)) for f in tree.body if isinstance(f, ast.FunctionDef))
+    if nfx != 2:
+        raise AnchorError(f"C04.R7: positive fixture matched {nfx} constructs, expected 2 (matcher broken)")
+    tm = repo.module(TAB)
+    n = 0
+    for q, d in tm.defs.items():
+        if not isinstance(d, ast.FunctionDef):
+            continue
+        n += 1
+        for lp in pairwise_truncations(d):
+            c.violated("C04.R7", repo.loc(tm, lp), f"{q}/pairwise-walk", f"`for {norm(lp.target)} in {norm(lp.iter)[:60]}` never processes the last element: the last line of the text is dropped "
+                       "(a tree ending in a leaf statement does not parse back)", key_text="pairwise-zip")
+    c.count("functions", n)
+    c.floor("C04.R7", "tabparser functions", n, 60)
+    c.holds("C04.R7", tm.rel, "tabparser/pairwise-walks", f"{n} functions, none walks its input in truncating pairs") if not [1 for v in c.instances if v["rule"] == "C04.R7" and v["verdict"] != "HOLDS"] else None
+
+
+STREAM_STAGES = {"_filtered_block_marks", "_formatted_blocks", "_indented_blocks", "_indent_blocks", "_blocks", "blocks_and_context", "filter", "map", "list", "tuple", "iter", "join"}
+
+
+def r8(c):
+    repo = c.repo
+    c.rule("C04.R8", "join renders the block stream in stream order: in every vendor's resolved join the text is '\\n'.join(...) of a stream that comes from _blocks / "
+                     "blocks_and_context through per-line stages only; a stage that files lines into a mapping and re-emits them group by group changes the order of rows "
+                     "(parse(join(t)) has the rows of t in another order)")
+    tm = repo.module(TAB)
+    fc = formatter_classes(repo)
+    seen = set()
+    for name, (m, cls, vns) in sorted(fc.items()):
+        j = repo.class_attr(m, cls, "join")
+        if not j or id(j[2]) in seen:
+            continue
+        seen.add(id(j[2]))
+        fn = repo.canon(j[0], j[2])
+        c.count("functions")
+        joins = [x for x in calls_in(fn) if isinstance(x.func, ast.Attribute) and x.func.attr == "join" and isinstance(x.func.value, ast.Constant) and x.args]
+        if not joins:
+            c.holds("C04.R8", repo.loc(j[0], j[2]), f"{j[1].name}.join", "no text join in this method (delegates)", trivial=True)
+            continue
+        pv = Provenance(fn)
+        stages = []
+        for x in [joins[0].args[0]] + pv.origin_calls(joins[0].args[0], through_calls=True):
+            if isinstance(x, ast.Call):
+                stages.append(x)
+        bad = None
+        for x in stages:
+            nm = call_name(x).split(".")[-1]
+            if nm in STREAM_STAGES:
+                continue
+            r = repo.resolve_call(j[0], x)
+            if r is None and isinstance(x.func, ast.Attribute) and isinstance(x.func.value, ast.Name) and x.func.value.id == "self":
+                rr = repo.class_attr(m, cls, x.func.attr)
+                r = (rr[0], rr[1].name + "." + x.func.attr, rr[2]) if rr else None
+            if r and isinstance(r[2], ast.FunctionDef):
+                f2 = r[2]
+                # files the lines it is given into a mapping keyed by something read from them, then walks the mapping
+                maps = {n.targets[0].id for n in ast.walk(f2) if isinstance(n, ast.Assign) and isinstance(n.targets[0], ast.Name) and isinstance(n.value, ast.Call)
+                        and call_name(n.value) in ("odict", "dict", "OrderedDict", "defaultdict", "collections.defaultdict") or
+                        isinstance(n, ast.Assign) and isinstance(n.targets[0], ast.Name) and isinstance(n.value, ast.Dict)}
+                files = [n for n in ast.walk(f2) if (isinstance(n, ast.Call) and isinstance(n.func, ast.Attribute) and n.func.attr == "setdefault" and norm(n.func.value) in maps) or
+                         (isinstance(n, ast.Assign) and isinstance(n.targets[0], ast.Subscript) and norm(n.targets[0].value) in maps)]
+                walks = [n for n in ast.walk(f2) if isinstance(n, ast.For) and any(isinstance(y, ast.Name) and y.id in maps for y in ast.walk(n.iter))]
+                if files and walks:
+                    bad = (x, f2)
+        if bad:
+            c.violated("C04.R8", repo.loc(j[0], bad[0]), f"{j[1].name}.join({','.join(vns)})", f"the rendered lines pass through `{norm(bad[0])[:50]}`, which files them into a mapping and "
+                       "re-emits them group by group: rows of a block that follow one of its sub-blocks are moved in front of it, so the text does not parse back to the same ordered tree",
+                       key_text="regrouped")
+        else:
+            c.holds("C04.R8", repo.loc(j[0], j[2]), f"{j[1].name}.join({','.join(vns)})", "stream order kept")
